@@ -64,6 +64,9 @@ def rich_series(rnd, n, kind=None):
             if not any(v is not None for v in vals):
                 return s, 'object_str'
             s = s.astype('category')
+            if rnd.random() < 0.4:
+                # categories declared up front, or left behind by a filter, that no row uses
+                s = s.cat.add_categories(['unused category', 'zz9'])
         return s, kind
     if kind == 'many_cats':
         k = rnd.randint(18, 26)
@@ -99,6 +102,11 @@ def rich_frame(rnd):
     n = rnd.choice([0, 0, 1, 2, 3, 5, 8, 13, 30])
     ncols = rnd.randint(1, 3)
     names = rnd.sample(FIELD_NAMES, ncols)
+    if ncols >= 2 and rnd.random() < 0.2:
+        # two fields whose names differ only in case (and hold different data)
+        a, b = rnd.choice([('ID', 'id'), ('Été', 'été'), ('Total', 'TOTAL'), ('b', 'B')])
+        names[0], names[1] = a, b
+        names = list(dict.fromkeys(names))
     data = {}
     kinds = {}
     for nm in names:
